@@ -38,6 +38,8 @@ struct WorkerOut {
     nontrivial_runs: u64,
     trace_hashes: Vec<u64>,
     subject_spec_hashes: Vec<u64>,
+    /// (type, unit) pairs displayed as a value or as a unit
+    units_shown: Vec<(usize, usize)>,
     fault_then_judged_runs: u64,
     loghash: u64,
     samples: Vec<serde_json::Value>,
@@ -68,6 +70,7 @@ fn worker(base: u64, first: u64, count: u64, known: &[String]) -> WorkerOut {
     let mut out = WorkerOut::default();
     let mut traces = BTreeSet::new();
     let mut subj = BTreeSet::new();
+    let mut units = BTreeSet::new();
     let mut lh: u64 = 0xcbf2_9ce4_8422_2325;
     for i in first..first + count {
         let plan = plan::generate(run_seed(base, i));
@@ -85,6 +88,12 @@ fn worker(base: u64, first: u64, count: u64, known: &[String]) -> WorkerOut {
         }
         for t in &plan.threads {
             for op in t {
+                match op.what {
+                    What::Qty { ty, unit, .. } | What::Unit { ty, unit } => {
+                        units.insert((ty, unit));
+                    }
+                    _ => {}
+                }
                 if subj.len() < 400_000 {
                     subj.insert(prng::fnv64(serde_json::to_string(&(&op.what, &op.spec)).unwrap().as_bytes()));
                 }
@@ -114,6 +123,7 @@ fn worker(base: u64, first: u64, count: u64, known: &[String]) -> WorkerOut {
     }
     out.trace_hashes = traces.into_iter().collect();
     out.subject_spec_hashes = subj.into_iter().collect();
+    out.units_shown = units.into_iter().collect();
     out.loghash = lh;
     out
 }
@@ -419,6 +429,7 @@ fn batch(args: &[String]) -> i32 {
     let (mut nruns, mut nontrivial_runs, mut fault_then) = (0u64, 0u64, 0u64);
     let mut traces = BTreeSet::new();
     let mut subj = BTreeSet::new();
+    let mut units = BTreeSet::new();
     let mut samples = Vec::new();
     let mut known_seen: Vec<(String, u64, Option<Violation>)> = Vec::new();
     let mut failures = Vec::new();
@@ -438,6 +449,7 @@ fn batch(args: &[String]) -> i32 {
         add(&mut total, &w.stats_sum);
         traces.extend(w.trace_hashes.iter().copied());
         subj.extend(w.subject_spec_hashes.iter().copied());
+        units.extend(w.units_shown.iter().copied());
         if samples.len() < 3 {
             samples.extend(w.samples.iter().cloned().take(1));
         }
@@ -549,6 +561,7 @@ fn batch(args: &[String]) -> i32 {
         "violations": violations_reported,
         "samples": samples,
         "units_available": subjects::total_units(),
+        "units_shown": units.len(),
         "types_available": subjects::TABLE.len(),
         "wall_s": wall,
         "runs_per_hour": (nruns as f64 / wall * 3600.0) as u64,
@@ -631,6 +644,30 @@ fn main() {
             let out = worker(g(2), g(3), g(4), &known);
             println!("{}", serde_json::to_string(&out).unwrap());
             0
+        }
+        Some("free") => {
+            // free-running executions (meant for `cargo miri run`): all caller
+            // threads of a run are live at once and the interpreter's seeded
+            // scheduler preempts them anywhere, also between two sink writes
+            quiet_panics();
+            let g = |i: usize| args.get(i).and_then(|s| s.parse::<u64>().ok()).unwrap_or(0);
+            let known: Vec<String> =
+                args.get(5).map(|s| s.split(',').filter(|x| !x.is_empty()).map(String::from).collect()).unwrap_or_default();
+            let (mut ops, mut bad) = (0u64, 0u64);
+            for i in g(3)..g(3) + g(4) {
+                let mut plan = plan::generate(run_seed(g(2), i));
+                for t in plan.threads.iter_mut() {
+                    t.truncate(2);
+                }
+                let res = exec::execute_mode(&plan, true);
+                ops += res.stats.ops;
+                for v in res.violations.iter().filter(|v| !known.contains(&v.kind)) {
+                    bad += 1;
+                    println!("FREE-VIOLATION run={} seed={} {} {} {}: expected {:?} got {:?}", i, plan.seed, v.kind, v.subject, v.spec, v.expected, v.actual);
+                }
+            }
+            println!("FREE runs={} ops={} violations={}", g(4), ops, bad);
+            if bad > 0 { 1 } else { 0 }
         }
         Some("batch") => batch(&args),
         Some("replay") => replay(args.get(2).map(String::as_str).unwrap_or("")),
